@@ -278,5 +278,9 @@ FIXED = [
     ("range-with-a-secret-bound", 'from nada_dsl import *\n\ndef nada_main():\n    p = Party(name="P")\n    s = SecretInteger(Input(name="s", party=p))\n    t = s\n    for i in range(0, s):\n        t = t + s\n    return [Output(t, "o", p)]\n'),
     ("range-with-a-string-bound", 'from nada_dsl import *\n\ndef nada_main():\n    p = Party(name="P")\n    s = SecretInteger(Input(name="s", party=p))\n    t = s\n    for i in range(0, "3"):\n        t = t + s\n    return [Output(t, "o", p)]\n'),
     ("range-with-a-nada-step", 'from nada_dsl import *\n\ndef nada_main():\n    p = Party(name="P")\n    s = SecretInteger(Input(name="s", party=p))\n    k = Integer(2)\n    xs = [s for i in range(0, 4, k)]\n    return [Output(sum(xs), "o", p)]\n'),
+    # lists whose items do not have the declared item type (sixth seeding round)
+    ("append-of-another-secrecy-then-sum", 'from nada_dsl import *\n\ndef nada_main():\n    p = Party(name="P")\n    u = PublicInteger(Input(name="u", party=p))\n    s = SecretInteger(Input(name="s", party=p))\n    votes: list[SecretInteger] = []\n    votes.append(u)\n    total = sum(votes)\n    return [Output(total, "o", p), Output(s, "s", p)]\n'),
+    ("annotated-list-of-other-items", 'from nada_dsl import *\n\ndef nada_main():\n    p = Party(name="P")\n    s = SecretInteger(Input(name="s", party=p))\n    x: list[int] = ["a"]\n    y = x[0]\n    return [Output(s, "o", p)]\n'),
+    ("list-display-of-mixed-secrecy", 'from nada_dsl import *\n\ndef nada_main():\n    p = Party(name="P")\n    u = PublicInteger(Input(name="u", party=p))\n    s = SecretInteger(Input(name="s", party=p))\n    l = [s, u]\n    first = l[1]\n    return [Output(first, "o", p)]\n'),
     ("typed-constructor-of-int", 'from nada_dsl import *\n\ndef nada_main():\n    p = Party(name="P")\n    s = SecretInteger(Input(name="s", party=p))\n    n = 3\n    a = PublicInteger(10)\n    b = SecretInteger(n + 1)\n    return [Output(s, "o", p)]\n'),
 ]
